@@ -264,7 +264,7 @@ func BuildUniform(nwf int, body []string) (*Kernel, error) {
 }
 
 // BuildRaw assembles a kernel without prologue: every wavefront runs the same straight-line body of
-// scheduler-internal instructions only (nop, bar, w:V:S, end), so that co-resident work-groups stay in lock step.
+// scheduler-internal instructions (nop, bar, w:V:S, end) and scalar loads (sld), so that co-resident work-groups stay in lock step.
 func BuildRaw(nwf int, body []string) (*Kernel, error) {
 	if nwf < 1 || nwf > 16 {
 		return nil, fmt.Errorf("1..16 wavefronts per group, got %d", nwf)
@@ -277,13 +277,15 @@ func BuildRaw(nwf int, body []string) (*Kernel, error) {
 			a.SNop()
 		case "bar":
 			a.SBarrier()
+		case "sld":
+			a.SLoadDword(9, 0, 16) // s9 = kernarg[16] (s[0:1] is the kernarg pointer the dispatcher sets up)
 		case "end":
 			a.SEndpgm()
 			ended = true
 		default:
 			v, s, ok := ParseWait(op)
 			if !ok {
-				return nil, fmt.Errorf("raw kernels take nop, bar, w:V:S, end; got %q", op)
+				return nil, fmt.Errorf("raw kernels take nop, bar, sld, w:V:S, end; got %q", op)
 			}
 			a.SWaitcnt(v, s)
 		}
